@@ -225,3 +225,18 @@ CONTRACTS.append(bcrypt_2_contract)
 MUTANTS.append(("bcrypt $2$: passwords of 56..71 bytes are not cycled", B, "                if secret:\n                    if require_valid_utf8_bytes:", "                if secret and len(secret) < 56:\n                    if require_valid_utf8_bytes:", "refute", r"_norm_digest_args\[\$2\$\]"))
 
 MUTANTS.append(("bcrypt $2$: byte-wise and character-wise repetition swapped", B, "                        secret = utf8_repeat_string(secret, 72)\n                    else:\n                        secret = repeat_string(secret, 72)", "                        secret = repeat_string(secret, 72)\n                    else:\n                        secret = utf8_repeat_string(secret, 72)", "refute", r"_norm_digest_args\[\$2\$\]"))
+
+# ---- lmhash with a per-call encoding: the truncation policy counts the bytes of THAT encoding (the bytes that are hashed), not of
+#      the class's default code page ----
+lmhash_encoding = Contract(
+    "lmhash._calc_checksum[encoding=utf-8]", f"{W}::lmhash._calc_checksum",
+    params={"self": _self(W, "lmhash", encoding="utf-8", default_encoding="cp437", raw=SStub(lambda it, a, k: fresh_str(it, "raw", "bytes"), "lmhash.raw")), "secret": Union(Str(), Bytes())},
+    globals={"hexlify": COMMON["hexlify"]},
+    raises={"PasswordTruncateError": "self.use_defaults and self.truncate_error and (len(secret.upper().encode('utf-8')) if isinstance(secret, str) else len(secret)) > self.truncate_size",
+            "UnicodeEncodeError": "isinstance(secret, str)"},
+    ensures=[("accepted only when the password, upper-cased and encoded with the CALLER'S encoding, fits or truncation is allowed",
+              "not (self.use_defaults and self.truncate_error and (len(secret.upper().encode('utf-8')) if isinstance(secret, str) else len(secret)) > self.truncate_size)")],
+    descr="text and bytes passwords; encoding keyword utf-8, class default cp437",
+)
+CONTRACTS.append(lmhash_encoding)
+MUTANTS.append(("lmhash: truncation check counts the bytes of the default code page", W, "                encoded = encoded.upper().encode(self.encoding)\n            self._check_truncate_policy(encoded)", "                encoded = encoded.upper().encode(self.default_encoding)\n            self._check_truncate_policy(encoded)", "refute", r"lmhash._calc_checksum\[encoding"))
